@@ -55,6 +55,24 @@ class Env:
             self.db.close()
         except Exception:
             pass
+        # a run that died inside nested transactions (an injected fault at a SAVEPOINT statement) can leave peewee believing a
+        # transaction is open, in which case close() refuses and the connection would keep its lock on the database file
+        try:
+            obj = self.db.database_proxy.obj
+            st = getattr(obj, "_state", None)
+            conn = getattr(st, "conn", None)
+            if conn is not None:
+                try:
+                    conn.rollback()
+                except Exception:
+                    pass
+                try:
+                    conn.close()
+                except Exception:
+                    pass
+                st.reset()
+        except Exception:
+            pass
         self.extensions._db_ext = None
         self.extensions._id_ext = None
         self.extensions._io_ext = {}
@@ -139,6 +157,17 @@ class CliEnv(Env):
         finally:
             verif_dbext.CTL["fault_at"] = set()
             nstmt = verif_dbext.CTL["count"]
+            if faults:
+                # a command killed by an injected error leaves its frames alive in the traceback the runner keeps (a SELECT half
+                # iterated there holds a read lock on the database file): drop the traceback and collect
+                import gc
+                try:
+                    if res.exception is not None:
+                        res.exception.__traceback__ = None
+                    res.exc_info = None
+                except Exception:
+                    pass
+                gc.collect()
             self.reconnect()
         self.last_stmt_count = nstmt
         exc = res.exception if res.exception is not None and not isinstance(res.exception, SystemExit) else None
